@@ -1236,13 +1236,23 @@ class Table:
         manifest (list) raises instead of returning partial/empty results -
         readers must be able to distinguish "empty table" from "broken table".
         """
-        snapshot = self.current_snapshot()
+        # ONE refresh decides everything. Resolving the snapshot with one read
+        # of the pointer and then asking a second read whether the id is set
+        # compared two different versions when the first commit landed in
+        # between: the reader saw "no snapshot" in the empty version and "id
+        # set" in the next one, and raised "inconsistent" on a healthy table.
+        metadata = self.metadata_manager.refresh()
+        current_id = metadata.current_snapshot_id if metadata else None
+        snapshot = None
+        if metadata is not None and current_id is not None:
+            for s in metadata.snapshots:
+                if s.snapshot_id == current_id:
+                    snapshot = s
+                    break
         if not snapshot:
             # An unset current_snapshot_id means "empty table". A SET id that
             # resolves to nothing means the metadata is inconsistent - returning
             # [] there would report a broken table as an empty one (#48).
-            metadata = self.metadata_manager.refresh()
-            current_id = metadata.current_snapshot_id if metadata else None
             if current_id is not None and current_id != -1:
                 raise RuntimeError(
                     f"Table metadata is inconsistent: current_snapshot_id {current_id} "
